@@ -15,6 +15,7 @@ pub mod c09;
 pub mod c10;
 pub mod c15;
 pub mod c16;
+pub mod c17;
 pub mod c18;
 
 pub struct PropDef {
@@ -39,6 +40,7 @@ pub fn get(id: &str) -> Option<PropDef> {
         "C10" => Some(c10::def()),
         "C15" => Some(c15::def()),
         "C16" => Some(c16::def()),
+        "C17" => Some(c17::def()),
         "C18" => Some(c18::def()),
         _ => None,
     }
